@@ -57,6 +57,8 @@ pub fn run(ctx: &Ctx) -> (Report, String) {
     }
     if ctx.is_main() {
         rep.require("pictures_compared", if ctx.tier == Tier::Quick { 250_000 } else { 4_000_000 } * ctx.scale_pct / 100);
+        rep.require("cases_with_history", 1000 * ctx.scale_pct / 100);
+        rep.require("chunked_source_cases", 1000 * ctx.scale_pct / 100);
         for k in ["flavour=sorenson-v0", "flavour=sorenson-v1", "flavour=std-plusptype", "shape=first-row", "shape=first-col", "shape=dense", "shape=last63", "shape=dc-only", "esc=Esc7", "esc=Esc8", "esc=Esc11", "esc=Short", "kind=INTRA+Q"] {
             rep.require(k, 50);
         }
@@ -242,11 +244,54 @@ pub fn case(ctx: &Ctx, shard: usize, index: u64, rep: &mut Report) {
     let cfg = gen_cfg(&mut rng, flavour, w, h);
     let pic = gen_intra(&mut rng, &cfg);
     let coords = crate::mon::coords("C02", ctx, shard, index);
-    judge(rep, &pic, flavour, &cfg, coords, shard == 0 && index < 3);
+    // a quarter of the cases: the decoder has already decoded other pictures (of this or another size,
+    // intra and predicted) before the picture under test - what an intra picture decodes to must not
+    // depend on what the instance did before; and the source may deliver a few bytes per read call
+    let mut dec = Dec::new(flavour.sorenson(), false);
+    dec.chunk = *rng.pick(&[usize::MAX, usize::MAX, usize::MAX, 1, 2, 5, 64, 1000]);
+    if dec.chunk != usize::MAX {
+        rep.count("chunked_source_cases");
+    }
+    if rng.chance(1, 4) && w * h <= 200 * 200 {
+        let n = 1 + rng.below(3);
+        for _ in 0..n {
+            let same = rng.chance(1, 2);
+            let (w2, h2) = if same || flavour == Flavour::StdFixed {
+                (w, h)
+            } else if flavour.sorenson() {
+                (1 + rng.below(80) as usize, 1 + rng.below(80) as usize)
+            } else {
+                (4 * (1 + rng.below(20) as usize), 4 * (1 + rng.below(20) as usize))
+            };
+            let mut c2 = gen_cfg(&mut rng, flavour, w2, h2);
+            c2.tr = cfg.tr.wrapping_sub(1 + rng.below(3) as u8);
+            let prev = if rng.chance(1, 2) {
+                gen_intra(&mut rng, &c2)
+            } else {
+                let ptype = if flavour.sorenson() && rng.chance(1, 3) { 2 } else { 0 };
+                let truncate = if rng.chance(1, 4) { Some(rng.below(4) as usize) } else { None };
+                gen_inter(&mut rng, &c2, &InterCfg { ptype, big_vectors_pct: 30, residual_pct: 60, truncate, allow_q: true })
+            };
+            match dec.decode(&prev.encode()) {
+                Outcome::Ok => rep.count("history_pictures_before_the_intra_picture"),
+                Outcome::Err(_) => rep.count("history_rejected_inputs_before_the_intra_picture"),
+                Outcome::Panic { msg, loc } => {
+                    rep.violation(format!("panic@{}", loc), format!("history picture {}x{} before the picture under test panicked: {}", w2, h2, msg), coords.clone());
+                    return;
+                }
+            }
+        }
+        rep.count("cases_with_history");
+    }
+    judge_on(rep, dec, &pic, flavour, &cfg, coords, shard == 0 && index < 3);
+}
+
+pub fn judge(rep: &mut Report, pic: &SymPicture, flavour: Flavour, cfg: &PicCfg, coords0: J, sample: bool) {
+    judge_on(rep, Dec::new(flavour.sorenson(), false), pic, flavour, cfg, coords0, sample)
 }
 
 /// Encode, decode with the real decoder, reconstruct with the model, compare, count coverage.
-pub fn judge(rep: &mut Report, pic: &SymPicture, flavour: Flavour, cfg: &PicCfg, coords0: J, sample: bool) {
+pub fn judge_on(rep: &mut Report, mut dec: Dec, pic: &SymPicture, flavour: Flavour, cfg: &PicCfg, coords0: J, sample: bool) {
     let (w, h) = (pic.w, pic.h);
     let bytes = pic.encode();
     rep.evaluations += 1;
@@ -258,7 +303,6 @@ pub fn judge(rep: &mut Report, pic: &SymPicture, flavour: Flavour, cfg: &PicCfg,
             return;
         }
     };
-    let mut dec = Dec::new(flavour.sorenson(), false);
     let out = dec.decode(&bytes);
     rep.count(&format!("flavour={}", flavour.name()));
     match out {
